@@ -36,4 +36,12 @@ theorem C03_indexed_text_is_annotated_document (d : Document) :
   rw [mapperText_eq_extractText]
   exact doc_tagged d
 
+/-- The two indexes of the engine are related like the two views of the reader: the raw index, read with every
+annotation accepted, is the accepted-view index the clean-view fallback of the searched path works on (same domain as
+C04_document_read_accepted_partial). -/
+theorem C03_raw_index_reads_as_accepted_index_partial (d : Document) (h : domDoc d = true) :
+    (parse (mapperText false d)).map acceptView = some (mapperText true d) := by
+  rw [mapperText_eq_extractText, mapperText_eq_extractText]
+  exact (doc_reads d h).parse
+
 end Adeu.Props.C03
